@@ -428,6 +428,14 @@ theorem text_codec_objects_in_code :
       "_flush_recv_buf: decoder.decode(b'', True)", "write: encoder.encode(cast(str, data))"] := by
   decide
 
+/-- **Tie to the code** (fix ae15f0e): data that arrives after the local `close()` is dropped and data still
+    buffered is discarded — the receiving application has closed, the stream clauses do not speak about it — but
+    the window it used is given back (`acceptData`, `discardRecv` emit the WINDOW_ADJUST the translator finds in
+    `_accept_data` / `_discard_recv`), so the peer's own stream towards an application that still reads is not
+    held up for want of window -/
+theorem dropped_data_credited_in_code :
+    Gen.C07.dropCreditsWindow = true ∧ Gen.C07.discardCreditsWindow = true := by decide
+
 /-! ### channel requests and tunnel channels -/
 
 /-- **Tie to the code** (repair e7dbee0): `SSHServerChannel._start_session` refuses a `shell` / `exec` /
